@@ -293,7 +293,7 @@ class World:
                 name=stem, stream=stream, bitrate=rep.bitrate, content_type=rep.content_type,
                 codec_fourcc=rep.codecs.split('.')[0], track_id=rep.track_id,
                 encrypted=rep.encrypted, blob=blob)
-            mf.set_representation(rep)
+            mf.set_representation(Representation(**rep.toJSON(pure=True)))   # as read back from the store
             models.db.session.add(blob)
             models.db.session.add(mf)
             want_ref = timing_ref or None
@@ -332,7 +332,7 @@ class World:
             mf = models.MediaFile(name=stem, stream=stream, bitrate=rep.bitrate, content_type=rep.content_type,
                                   codec_fourcc=rep.codecs.split('.')[0], track_id=rep.track_id,
                                   encrypted=rep.encrypted, blob=blob)
-            mf.set_representation(rep)
+            mf.set_representation(Representation(**rep.toJSON(pure=True)))   # as read back from the store
             models.db.session.add(blob)
             models.db.session.add(mf)
             if stream.timing_reference is None and ((timing_ref is None and '_v' in stem) or timing_ref == stem):
@@ -379,7 +379,7 @@ class World:
                     mf.codec_fourcc = rep.codecs.split('.')[0]
                     mf.track_id = rep.track_id
                     mf.encrypted = rep.encrypted
-                    mf.set_representation(rep)
+                    mf.set_representation(Representation(**rep.toJSON(pure=True)))   # as read back from the store
                     if name != 'synnoref' and stream.timing_reference is None and ctype == 'video':
                         stream.timing_reference = mf.as_stream_timing_reference()
             self.stream_names.append(name)
